@@ -119,6 +119,11 @@ Section Cell.
   (* the schedule without its read-only actions *)
   Definition without_reads (s : list action) : list action := filter (fun a => negb (is_read a)) s.
   Definition count_lookups (s : list action) : nat := length (filter is_lookup s).
+  (* what the writers stored, in order *)
+  Definition sets_of (s : list action) : list (option T) :=
+    flat_map (fun a => match a with ASet o => [o] | _ => [] end) s.
+  Definition no_set_some (s : list action) : bool :=
+    forallb (fun o => match o with Some _ => false | None => true end) (sets_of s).
   (* the complete tables that were ever installed *)
   Definition installed (t0 : T) (s : list action) (t : T) : Prop := t = t0 \/ In (ASet (Some t)) s.
 End Cell.
@@ -415,6 +420,11 @@ Section LookupFull.
                    else Lookup.matching_hosts (keys_table bt) host tls in
       look_hosts bt (hosts ++ [[]]) uri m total.
 
+  (* Table.LookupHost (table.go: t.lookup(host, "/", "", pick, prefixMatcher)): the TCP / SNI proxies'
+     entry point - the host is a table key, no host matching *)
+  Definition lookup_host (bt : btable) (host : str) (total : N) : outcome (option (str * str * nat)) :=
+    look_hosts bt [host] [47%N] Lookup.MPrefix total.
+
   (* F-C02-4: some host key of the table is not a valid glob *)
   Definition F_C02_bad_host_glob (bt : btable) (tls : bool) : bool :=
     negb (forallb (fun k => hostglob_ok (Lookup.normalize_host k tls)) (map fst bt)).
@@ -423,8 +433,36 @@ End LookupFull.
 (* ====================================================================================== *)
 (** * (b) the update loops with a builder that can crash                                     *)
 (* ====================================================================================== *)
+(* ---- the rest of the loop body.  main.go:617-621: route.ParseAliases(nextTable) runs on every
+        candidate before NewTable (its error is only logged): the same line parser on strings.Split
+        lines (no scanner, so no line limit and no \r handling beyond TrimSpace), then the values of the
+        `register` option.  logRoutes (after SetTable) diffs the two texts with a third-party library
+        and is NOT modelled: harness only (all four formats, white-space-only and equal-length classes). ---- *)
+Fixpoint alias_lines (pweight : str -> outcome wt) (ls : list str) : outcome (list def) :=
+  match ls with
+  | [] => Ok []
+  | l :: ls' =>
+      do o <- parse_line pweight l;
+      do ds <- alias_lines pweight ls';
+      Ok (match o with Some d => d :: ds | None => ds end)
+  end.
+Definition k_register : str := [114; 101; 103; 105; 115; 116; 101; 114]%N.
+Fixpoint opt_get (k : str) (m : list (str * str)) : option str :=
+  match m with
+  | [] => None
+  | (k', v) :: m' => if beq k k' then Some v else opt_get k m'
+  end.
+Definition parse_aliases (pweight : str -> outcome wt) (text : str) : outcome (list str) :=
+  do ds <- alias_lines pweight (split_byte text 10);
+  Ok (flat_map (fun d => match opt_get k_register (d_opts d) with Some v => [v] | None => [] end) ds).
+(* one candidate through the loop body: a panic in ParseAliases kills the process as surely as one in
+   NewTable; its error return does not stop the build *)
+Definition loop_body (aliases : str -> outcome (list str)) (build : str -> outcome btable) (text : str)
+  : outcome btable :=
+  match aliases text with Panic => Panic | _ => build text end.
+
 Section Loops.
-  Variable build : str -> outcome btable.        (* full_build ... *)
+  Variable build : str -> outcome btable.        (* loop_body (parse_aliases ..) (full_build ..) *)
 
   (* what C01's loop model needs: None = NewTable returned an error *)
   Definition build_opt (text : str) : option btable :=
@@ -462,6 +500,14 @@ Section Loops.
         (if beq next (Watch.w_last w1) then [] else [next]) ++ candidates (Watch.step btable build_opt w e) r
     end.
 End Loops.
+
+(* ---- the writers as sources of SetTable calls: what the update loop stores for a history, what
+        the custom backend stores for a sequence of decoded polls ---- *)
+Definition loop_emits (build : str -> outcome btable) (w : Watch.wstate btable) (h : list Watch.event)
+  : list (option btable) :=
+  map (build_opt build) (Watch.installs btable (build_opt build) w h).
+Definition poll_emit (cbuild : list (option def) -> outcome btable) (ds : list (option def)) : option btable :=
+  match cbuild ds with Ok bt => Some bt | _ => None end.      (* SetTable(t), t = nil on error *)
 
 (* registry/custom/custom.go:76-86: t, err := NewTableCustom(defs); SetTable(t), where t = nil on
    error: the path relies on SetTable ignoring nil.  None = the polling goroutine panicked. *)
